@@ -67,10 +67,15 @@ def main():
         res["demo_passes_without"] = rc0 == 0
         rc, out = sh("git apply %s" % os.path.join(os.path.abspath(src), "patch.diff"), cwd=wt)
         assert rc == 0, "patch does not apply: " + out
-        rcb, outb = sh("go vet ./... >/dev/null 2>&1; go test -vet=off -count=1 -run '^$' ./...", cwd=mod)
-        res["builds"] = rcb == 0
         pkgs = ". ./multiendpoint" if pkg.startswith("grpcgcp") else "./..."
-        rct, outt = sh("go test -vet=off -count=1 %s" % pkgs, cwd=mod)
+        rcb, outb = sh("go test -vet=off -count=1 -run '^$' %s" % pkgs, cwd=mod)
+        res["builds"] = rcb == 0
+        for attempt in range(3):     # the suite has wall-clock sensitive tests; retry to filter load flakes
+            rct, outt = sh("go test -vet=off -count=1 %s" % pkgs, cwd=mod)
+            if rct == 0:
+                break
+        if rct != 0:
+            res["existing_tests_output"] = outt[-1500:]
         ran.append("existing tests (%s) with patch: exit %d" % (pkgs, rct))
         res["existing_tests_pass_with"] = rct == 0
         if pkg.startswith("grpcgcp"):
